@@ -1,5 +1,5 @@
 """Generic nets, instantiated per property on the functions that property
-depends on (rule ids Cxx.G1 .. Cxx.G4).
+depends on (rule ids Cxx.G1 .. Cxx.G5).
 
 The rules of cXX.py decide clauses somebody wrote down for one function.  The
 adversarial rounds (DESIGN 8) showed a second population of breaking changes
@@ -22,6 +22,7 @@ consumes.
   G2  parameter-mutation effects  -- frozen effect signatures
   G3  stale loop values           (c20.stale_loop_reads) -- frozen exceptions
   G4  row integrity of tables     (rules/_rowtear.py)
+  G5  memo tables in loops        -- the key determines the stored value
 """
 import ast
 import json
@@ -101,6 +102,16 @@ def relevant(ctx, prop):
     repo = ctx.repo
     g, _ = _call_graph(repo)
     seeds = _anchor_functions(repo, prop) | _instance_functions(ctx)
+    # the functions that call an anchor directly wire its result into the
+    # model (e.g. Reactor._setup_gap_mesh_params around _map_asm2gap)
+    anchors = _anchor_functions(repo, prop)
+    ncallers = {}
+    for f, outs in g.items():
+        for o in outs & anchors:
+            ncallers[o] = ncallers.get(o, 0) + 1
+    wired = {o for o in anchors if ncallers.get(o, 0) <= 4}   # no hubs (log)
+    seeds |= {f for f, outs in g.items() if outs & wired
+              and not f.endswith('.__init__')}
     seen = set(seeds)
     work = list(seeds)
     while work:
@@ -633,11 +644,267 @@ def run(ctx, prop):
     g2(ctx, prop, rel, prop + '.G2')
     g3(ctx, prop, rel, prop + '.G3')
     g4(ctx, prop, rel, prop + '.G4')
+    g5(ctx, prop, rel, prop + '.G5')
     ctx.decided.append(
         'G1-G4 generic nets over the functions this property depends on '
         '(%d, closure of %d entry functions under resolved callees): no '
         'positional argument in another parameter\'s slot; no in-place '
         'modification of a caller-owned argument outside the frozen effect '
         'table; no value left over from a finished loop read in place of the '
-        'collection; no column-wise sort of a record table'
+        'collection; no column-wise sort of a record table; every memo table '
+        'filled inside a loop is keyed by everything its values depend on'
         % (len(rel), len(seeds)))
+
+
+# ---------------------------------------------------------------------------
+# G5: memo tables inside loops -- the key covers what the value depends on
+
+MEMO_POSITIVE = """
+def build(self):
+    maps = {}
+    for a in range(len(self.assemblies)):
+        asm = self.assemblies[a]
+        if asm.name not in maps:
+            maps[asm.name] = make_map(asm.region[0].xb(), self.core.xb[a])
+        asm.m = maps[asm.name]
+def fine(self):
+    seen = {}
+    for a in range(len(self.assemblies)):
+        asm = self.assemblies[a]
+        if asm.name not in seen:
+            seen[asm.name] = lookup(asm.name)
+        if a not in seen:
+            seen[a] = make_map(asm.region[0].xb(), self.core.xb[a])
+"""
+
+
+def _strip_keys(e):
+    if isinstance(e, ast.Call) and isinstance(e.func, ast.Attribute) and \
+            e.func.attr == 'keys' and not e.args:
+        return e.func.value
+    return e
+
+
+def _paths(e, hidden=frozenset()):
+    """Maximal Name/Attribute/Subscript chains in an expression as source
+    strings (indices of subscripts contribute their own chains too).
+    Comprehension variables are bound to what they iterate over."""
+    out = []
+
+    def rec(n, env):
+        if isinstance(n, (ast.ListComp, ast.SetComp, ast.GeneratorExp,
+                          ast.DictComp)):
+            env = dict(env)
+            for g in n.generators:
+                rec(g.iter, env)
+                its = src(g.iter)
+                for x in ast.walk(g.target):
+                    if isinstance(x, ast.Name):
+                        env[x.id] = its
+                for c in g.ifs:
+                    rec(c, env)
+            for f_ in ('elt', 'key', 'value'):
+                if hasattr(n, f_):
+                    rec(getattr(n, f_), env)
+            return
+        if isinstance(n, ast.Lambda):
+            return
+        if isinstance(n, (ast.Name, ast.Attribute, ast.Subscript)):
+            r = n
+            slices = []
+            while isinstance(r, (ast.Attribute, ast.Subscript)):
+                if isinstance(r, ast.Subscript):
+                    slices.append(r.slice)
+                r = r.value
+            if isinstance(r, ast.Name):
+                # (the indices are part of the chain's text)
+                s_ = src(n)
+                if r.id in env:
+                    # element of the iterated collection
+                    s_ = env[r.id] + '[*]' + s_[len(r.id):]
+                out.append(s_)
+                for sl in slices:
+                    # comprehension variables inside an index
+                    if any(isinstance(x, ast.Name) and x.id in env
+                           for x in ast.walk(sl)):
+                        rec(sl, env)
+                return
+            rec(r, env)
+            for sl in slices:
+                rec(sl, env)
+            return
+        if isinstance(n, ast.Call):
+            # a method call on a chain depends on the whole receiver
+            if isinstance(n.func, ast.Attribute):
+                rec(n.func.value, env)
+            elif not isinstance(n.func, ast.Name):
+                rec(n.func, env)
+            for a_ in n.args:
+                rec(a_.value if isinstance(a_, ast.Starred) else a_, env)
+            for k_ in n.keywords:
+                rec(k_.value, env)
+            return
+        for ch in ast.iter_child_nodes(n):
+            rec(ch, env)
+    rec(e, {})
+    return out
+
+
+def memo_violations(fn_node):
+    """[(store stmt, key src, uncovered dependency, loop)] for memo tables
+    filled inside a loop whose key does not determine the stored value."""
+    hits = []
+    n_memo = 0
+    body_stmts = [s for s in walk_no_nested(fn_node, include_self=False)
+                  if isinstance(s, ast.stmt)]
+    for lp in body_stmts:
+        if not isinstance(lp, (ast.For, ast.While)):
+            continue
+        inside = [s for s in ast.walk(lp) if isinstance(s, ast.stmt)
+                  and s is not lp]
+        # membership tests on a container inside the loop
+        tests = []
+        for n in ast.walk(lp):
+            if isinstance(n, ast.Compare) and len(n.ops) == 1 and \
+                    isinstance(n.ops[0], (ast.In, ast.NotIn)):
+                tests.append((src(_strip_keys(n.comparators[0])),
+                              src(n.left)))
+            if isinstance(n, ast.Call) and isinstance(n.func, ast.Attribute) \
+                    and n.func.attr == 'get' and len(n.args) >= 1:
+                tests.append((src(n.func.value), src(n.args[0])))
+        if not tests:
+            continue
+        # loop-varying names: targets of this loop and of loops nested in it,
+        # and locals bound inside it
+        defs = {}
+        varying = set()
+        if isinstance(lp, ast.For):
+            varying |= {x.id for x in ast.walk(lp.target)
+                        if isinstance(x, ast.Name)}
+        for s in inside:
+            if isinstance(s, ast.For):
+                its = s.iter
+                for x in ast.walk(s.target):
+                    if isinstance(x, ast.Name):
+                        defs.setdefault(x.id, []).append(its)
+            elif isinstance(s, ast.Assign):
+                for t in s.targets:
+                    for x in (t.elts if isinstance(t, (ast.Tuple, ast.List))
+                              else [t]):
+                        if isinstance(x, ast.Name):
+                            defs.setdefault(x.id, []).append(s.value)
+            elif isinstance(s, ast.AugAssign) and isinstance(
+                    s.target, ast.Name):
+                defs.setdefault(s.target.id, []).append(s.value)
+
+        def expand(paths, depth=0):
+            """Replace locals bound in the loop by what they were built
+            from, to a fixpoint; result: paths rooted outside the loop or at
+            a loop target."""
+            out = set()
+            for p_ in paths:
+                root = re.match(r'[A-Za-z_]\w*', p_).group(0)
+                if root in defs and depth < 6:
+                    rest = p_[len(root):]
+                    for d in defs[root]:
+                        sub = _paths(d)
+                        if isinstance(d, (ast.Name, ast.Attribute,
+                                          ast.Subscript)) and len(sub) >= 1 \
+                                and src(d) == sub[-1]:
+                            # plain alias: keep the access chain
+                            out |= expand([sub[-1] + rest], depth + 1)
+                        elif isinstance(d, ast.Call) and (call_name(d) or ''
+                                                          ) == 'enumerate':
+                            out |= expand([x + '[*]' + rest for x in _paths(
+                                d.args[0])] if rest or True else [],
+                                depth + 1)
+                        else:
+                            out |= expand(sub, depth + 1)
+                else:
+                    out.add(p_)
+            return out
+
+        def is_varying(p_):
+            names = set(re.findall(r'[A-Za-z_]\w*', p_))
+            return bool(names & varying)
+
+        for s in inside:
+            if not isinstance(s, ast.Assign):
+                continue
+            for t in s.targets:
+                if not isinstance(t, ast.Subscript):
+                    continue
+                D, K = src(t.value), src(t.slice)
+                if (D, K) not in tests:
+                    continue
+                # D must outlive one pass of the loop: not bound inside it
+                droot = re.match(r'[A-Za-z_]\w*', D).group(0)
+                if droot in defs or droot in varying:
+                    continue
+                # ... and be one object for all passes (a per-pass record
+                # such as data[...][i] is not a memo table)
+                if any(is_varying(x) for x in expand(_paths(t.value))):
+                    continue
+                n_memo += 1
+                kpaths = expand(_paths(t.slice))
+                vpaths = expand(_paths(s.value))
+                for vp in sorted(vpaths):
+                    if not is_varying(vp):
+                        continue
+                    # blank out every occurrence of a key path: what is
+                    # left must not vary with the loop
+                    rest = vp
+                    for kp in sorted(kpaths, key=len, reverse=True):
+                        rest = re.sub(r'(?<![\w.])' + re.escape(kp)
+                                      + r'(?!\w)', '#', rest)
+                    if not is_varying(rest):
+                        continue
+                    hits.append((s, K, vp, lp))
+                    break
+    return hits, n_memo
+
+
+# (function, table, key): reason -- confirmed by reading
+MEMO_OK = {
+    ('dassh.power:_from_file', 'params', "'zfm'"):
+        'the axial fine mesh of the first component; every later component '
+        'is checked against it (_check_axial_reg_between_materials)',
+}
+
+
+def g5(ctx, prop, rel, rule):
+    n = 0
+    nm = 0
+    for fi in ctx.repo.all_funcs():
+        if fi.mod.name.startswith('dassh.py4c'):
+            continue
+        n += 1
+        hits, k = memo_violations(fi.node)
+        nm += k
+        done = set()
+        for st, K, dep, lp in sorted(hits, key=lambda h: h[3].lineno):
+            if id(st) in done or (fi.full, src(st.targets[0].value), K) \
+                    in MEMO_OK:
+                continue
+            done.add(id(st))
+            msg = ('the table `%s` is filled inside the loop at line %d under '
+                   'the key `%s` and read back in later passes, but the '
+                   'stored value also depends on `%s`, which the key does '
+                   'not determine: a later pass with the same key and '
+                   'another `%s` gets the value computed for the first'
+                   % (src(st.targets[0].value), lp.lineno, K, dep, dep))
+            if fi.full in rel:
+                ctx.violation(rule, fi, st, msg,
+                              key='%s | memo key %s misses %s'
+                              % (fi.full, K, dep))
+    pm = Module('dassh._positive', '<positive>', 'dassh/_positive.py',
+                MEMO_POSITIVE)
+    h1, k1 = memo_violations(pm.funcs['build'].node)
+    h2, k2 = memo_violations(pm.funcs['fine'].node)
+    if len(h1) != 1 or h2 or k2 != 2:
+        raise AnalysisError('%s positive example: %s / %s (%d memo tables)'
+                            % (rule, [(h[1], h[2]) for h in h1],
+                               [(h[1], h[2]) for h in h2], k2))
+    ctx.ok(rule, 'dassh', None, '%d functions scanned, %d memo tables filled '
+           'inside loops; synthetic positive/negative examples decided'
+           % (n, nm))
